@@ -72,6 +72,10 @@ def build_tree(rnd, root, fault, placement, st):
         text = f".same{k}a {{ color: {tn}; background-color: {bn} }}\n.same{k}b {{ color: {tn}; }}\n" + text   # first in the file
         sheets[rel] = text
         names.append(rel)
+    # a stylesheet with nothing to adjust, written in minified form (no ';' after the last declaration of its :root block):
+    # its output must not depend on whether *other* files had something adjusted
+    quiet = os.path.normpath(os.path.join(rnd.choice([".", "sub"]), rnd.choice(["k9quiet.css", "a1quiet.css", "zquiet.min.css"])))
+    sheets[quiet] = ":root{--q-ink:#111111;--q-paper:#ffffff}\nhtml{--q2:#000}\n.q1{color:#111111;background-color:#ffffff}\n.q2{color:var(--q-ink);background-color:var(--q-paper)}\n"
     faulty, orphans = [], []
     if fault != "none":
         where, lvl = placement
